@@ -259,7 +259,7 @@ func (c *rapidContext) watchEvents(events <-chan supvmodel.Event) {
 		// shutdown or reset that waits for this process run to completion and re-arm the flows
 		// for the next generation, which a cancellation arriving after that would break.
 		c.registrationService.CancelFlows(err)
-		verifAt("watch.exitHandled")
+		verifAt("watch.flowsCanceled")
 		c.shutdownContext.handleProcessExit(*termination)
 	}
 }
